@@ -435,10 +435,112 @@ def rule_radius(chk, prog):
   for i in chk.instances[before:]:
     i['rule'] = 'C12.5-radius-power'
   chk.minimum.pop('C02.3-radius-power', None)
-  chk.at_least('C12.5-radius-power', len(c02.OPERATORS))
+  # the equation modules take the spectrum of the Laplacian from the grid (−l(l+1)/radius²): nobody rebuilds it from the bare
+  # wavenumber axis, which would silently assume radius = 1 (the non-dimensional radius is 1 only under the default length scale)
+  rule = 'C12.5-radius-power'
+  for short in ('primitive_equations', 'shallow_water', 'time_integration', 'held_suarez', 'primitive_equations_states', 'shallow_water_states'):
+    m = prog.module(short)
+    readers = []
+    for f in all_functions(prog):
+      if f.module is not m:
+        continue
+      for node in ast.walk(f.node):
+        if isinstance(node, ast.Attribute) and node.attr in ('modal_axes', 'modal_mesh') and isinstance(node.ctx, ast.Load):
+          readers.append((f, node.lineno))
+    for f, line in readers:
+      chk.violation(rule, f'{f.qualname.replace("dinosaur.", "")}: reads the bare wavenumber axes', 'wavenumber arithmetic outside the grid: a Laplacian spectrum rebuilt from l alone '
+                    'drops the 1/radius² that Grid.laplacian / laplacian_eigenvalues carry, so solve and tendency disagree whenever the non-dimensional radius is not 1', (f.file, line),
+                    'coords.horizontal.laplacian_eigenvalues', 'modal_axes / modal_mesh')
+    if not readers:
+      chk.ok(rule, f'{short}: the Laplacian spectrum is only taken from the grid (no read of modal_axes / modal_mesh)', '', (m.relpath, 1))
+  chk.at_least('C12.5-radius-power', len(c02.OPERATORS) + 6)
+
+
+UNIT_DIMS = {
+    # unit name -> exponents of (m, s, kg, K)
+    'm': (1, 0, 0, 0), 'meter': (1, 0, 0, 0), 'metre': (1, 0, 0, 0), 'km': (1, 0, 0, 0), 'kilometer': (1, 0, 0, 0),
+    's': (0, 1, 0, 0), 'second': (0, 1, 0, 0), 'minute': (0, 1, 0, 0), 'hour': (0, 1, 0, 0), 'day': (0, 1, 0, 0), 'year': (0, 1, 0, 0),
+    'kg': (0, 0, 1, 0), 'kilogram': (0, 0, 1, 0), 'g': (0, 0, 1, 0), 'gram': (0, 0, 1, 0),
+    'degK': (0, 0, 0, 1), 'kelvin': (0, 0, 0, 1), 'K': (0, 0, 0, 1),
+    'J': (2, -2, 1, 0), 'joule': (2, -2, 1, 0), 'kJ': (2, -2, 1, 0), 'W': (2, -3, 1, 0), 'watt': (2, -3, 1, 0), 'kW': (2, -3, 1, 0),
+    'N': (1, -2, 1, 0), 'newton': (1, -2, 1, 0), 'pascal': (-1, -2, 1, 0), 'Pa': (-1, -2, 1, 0), 'hPa': (-1, -2, 1, 0), 'bar': (-1, -2, 1, 0),
+    'dimensionless': (0, 0, 0, 0), 'radian': (0, 0, 0, 0), 'degree': (0, 0, 0, 0),
+}
+SI_DIMENSIONS = {
+    # from_si parameter -> (m, s, kg, K) of the physical quantity it stands for
+    'radius_si': ((1, 0, 0, 0), 'a length'),
+    'angular_velocity_si': ((0, -1, 0, 0), 'an angular rate (1/time)'),
+    'gravity_acceleration_si': ((1, -2, 0, 0), 'an acceleration'),
+    'ideal_gas_constant_si': ((2, -2, 0, -1), 'a specific gas constant J/(kg K)'),
+    'water_vapor_gas_constant_si': ((2, -2, 0, -1), 'a specific gas constant J/(kg K) — used in the pure number R_vapor/R − 1'),
+    'water_vapor_isobaric_heat_capacity_si': ((2, -2, 0, -1), 'a specific heat J/(kg K) — used in the pure number Cp_vapor/Cp'),
+    'kappa_si': ((0, 0, 0, 0), 'the pure number R/Cp'),
+    'density_si': ((-3, 0, 1, 0), 'a density'),
+}
+
+
+def dimension_of(ev, t, depth=0):
+  """(m, s, kg, K) exponents of a pint expression term, or None when a unit is not tabled."""
+  if depth > 12:
+    return None
+  add = lambda a, b, sg=1: tuple(x + sg * y for x, y in zip(a, b))
+  if t.k == 'const':
+    return (0, 0, 0, 0) if isinstance(t.a[0], (int, float)) else None
+  if t.k == 'global':
+    if t.a[1] == 'units':
+      return None
+    return dimension_of(ev, ev.global_definition(t), depth + 1)
+  if t.k == 'attr' and (sym.show(t.a[0]).endswith('units') or (t.a[0].k == 'global' and t.a[0].a[1] == 'units')):
+    return UNIT_DIMS.get(t.a[1])
+  if t.k == 'bin':
+    l, r = dimension_of(ev, t.a[1], depth + 1), dimension_of(ev, t.a[2], depth + 1)
+    if t.a[0] == '**':
+      e = t.a[2]
+      if l is None or not (e.k == 'const' and isinstance(e.a[0], int)):
+        return None
+      return tuple(x * e.a[0] for x in l)
+    if l is None or r is None:
+      return None
+    if t.a[0] == '*':
+      return add(l, r)
+    if t.a[0] == '/':
+      return add(l, r, -1)
+    if t.a[0] in ('+', '-'):
+      return l if l == r else None
+  if t.k == 'un':
+    return dimension_of(ev, t.a[1], depth + 1)
+  return None
+
+
+def rule_si_dimensions(chk, prog):
+  """Every SI default handed to a specs constructor has the dimension of the quantity it stands for: Scale.nondimensionalize
+  accepts any dimensionality, so a constant written with the wrong units (J/kg·K for J/(kg K)) gives the same number under a
+  1-kelvin scale and a different one under any other — exactly a scale-dependent result."""
+  rule = 'C12.7-si-defaults-have-their-dimension'
+  ev = sym.Evaluator(prog)
+  n = 0
+  for cq in (f'{PE}.PrimitiveEquationsSpecs', f'{SW}.ShallowWaterSpecs'):
+    f = prog.cls(cq).find_method('from_si')
+    a = f.args
+    names = [x.arg for x in a.posonlyargs + a.args]
+    defaults = [None] * (len(names) - len(a.defaults)) + list(a.defaults)
+    for pn, d in list(zip(names, defaults)) + [(x.arg, d_) for x, d_ in zip(a.kwonlyargs, a.kw_defaults)]:
+      if d is None or pn not in SI_DIMENSIONS:
+        continue
+      want, what = SI_DIMENSIONS[pn]
+      t = ev.eval_module_expr(f.module, d)
+      got = dimension_of(ev, t)
+      if got is None:
+        chk.note(f'{cq.replace("dinosaur.", "")}.from_si: dimension of the default of `{pn}` ({sym.show(t)[:60]}) uses a unit that is not tabled; not judged')
+        continue
+      n += 1
+      chk.check(got == want, rule, f'{cq.replace("dinosaur.", "")}.from_si: the default of `{pn}` ({sym.show(t)[:50]}) is {what}', f'(m, s, kg, K) exponents {got}', (f.file, f.lineno),
+                str(want), str(got))
+  chk.at_least(rule, 7)
 
 
 def run(chk, prog, tier):
+  rule_si_dimensions(chk, prog)
   rule_default_scale(chk, prog)
   rule_quantity_typestate(chk, prog)
   rule_magnitude(chk, prog)
